@@ -255,3 +255,34 @@ Proof.
   intros n sch s. assert (invA s) as A by (apply invA_run, invA_init).
   split; [apply (a_mono _ A)|apply (a_f4 _ A)].
 Qed.
+
+(* ---------- the guarded runs are runs of the faithful model ---------- *)
+Lemma run_app : forall a b s, run s (a ++ b) = run (run s a) b.
+Proof.
+  induction a as [|t r IH]; intros b s; [reflexivity|].
+  cbn [app run]. destruct (step s t); apply IH.
+Qed.
+
+Lemma stepA_is_run : forall s t s', stepA s t = Some s' -> exists sch, run s sch = s'.
+Proof.
+  intros s t s' H.
+  assert (forall u, (match step s u with
+                     | Some s1 => if in_window s1 u then step s1 u else Some s1
+                     | None => None
+                     end) = Some s' -> exists sch, run s sch = s') as G.
+  { intros u Hu. destruct (step s u) as [s1|] eqn:H1; [|discriminate].
+    destruct (in_window s1 u).
+    - exists [u; u]. cbn. rewrite H1, Hu. reflexivity.
+    - injection Hu as <-. exists [u]. cbn. rewrite H1. reflexivity. }
+  destruct t as [|t]; cbn [stepA] in H.
+  - destruct (pc_done s); [discriminate|]. apply (G 0 H).
+  - apply (G (S t) H).
+Qed.
+
+Lemma runA_is_run : forall sch s, exists sch', runA s sch = run s sch'.
+Proof.
+  induction sch as [|t rest IH]; intros s; [exists []; reflexivity|].
+  cbn. destruct (stepA s t) as [s'|] eqn:Hs; [|apply IH].
+  destruct (IH s') as [sch' E]. destruct (stepA_is_run _ _ _ Hs) as [pre Hp].
+  exists (pre ++ sch'). rewrite run_app, Hp. exact E.
+Qed.
